@@ -1,1 +1,324 @@
-/-! # C16 — property theorems (not built yet) -/
+import RsMatterVerif.Lemmas.Tlv
+import RsMatterVerif.Lemmas.TlvRound
+import RsMatterVerif.Lemmas.TlvSchema
+/-!
+# C16 — the TLV codec round-trips every value and rejects every malformed input safely
+
+Theorems over `Model/Tlv.lean` (the model of `tlv.rs`, `tlv/read.rs`, `tlv/write.rs` after the
+C16 fix commits).  `NP r` = "`r` is not a panic of any kind": no arithmetic overflow, no failed
+`unwrap!`/`unreachable!`, no out-of-range index, and no exhausted loop fuel (= the loop ends).
+The only hypothesis on the input is `bs.length + 1 < 2^64`, true of every Rust slice
+(`len ≤ isize::MAX`).
+-/
+namespace C16
+open Tlv
+
+/-! ## 0. the model is built on the constants of the sources -/
+
+/-- the value-type / tag-type codes and the control-byte layout used by the model are the ones
+re-extracted from `tlv.rs` on every run (`Generated/Consts.lean`) -/
+theorem consts_agree :
+    2 ^ Consts.tlvTagShiftBits = 32 ∧ Consts.tlvTypeMask + 1 = 32 ∧
+    Consts.tlvVtU8 = (ValueType.uint .w1).code ∧ Consts.tlvVtUtf8l = (ValueType.utf8 .w1).code ∧
+    Consts.tlvVtStr8l = (ValueType.str .w1).code ∧ Consts.tlvVtNull = ValueType.null.code ∧
+    Consts.tlvVtStruct = (ValueType.cont .struct).code ∧ Consts.tlvVtEndCnt = ValueType.endCnt.code ∧
+    Consts.tlvTagFullQual64 = TagType.fullQual64.code ∧ endByte.toNat = Consts.tlvVtEndCnt := by decide
+
+/-! ## 1. the findings, as theorems about the old arithmetic -/
+
+/-- `TLVSequence::len` before the fix: the unchecked `1 + tag + lenlen + value_len` overflows on a
+9-byte input (the model's `Old.elemLen` panics) … -/
+theorem old_len_overflows :
+    Old.elemLen [0x13, 0xff, 0xff, 0xff, 0xff, 0xff, 0xff, 0xff, 0xff] = .panic .overflow := by decide
+
+/-- … the fixed one reports `TLVTypeMismatch`, also through `raw_value` of the enclosing struct -/
+theorem fixed_len_rejects :
+    elemLen [0x13, 0xff, 0xff, 0xff, 0xff, 0xff, 0xff, 0xff, 0xff] = .err .mismatch ∧
+    rawValue [0x15, 0x13, 0xff, 0xff, 0xff, 0xff, 0xff, 0xff, 0xff, 0xff] = .err .mismatch ∧
+    containerLen [0x15, 0x13, 0xff, 0xff, 0xff, 0xff, 0xff, 0xff, 0xff, 0xff] = .err .mismatch ∧
+    containerLen [0x30, 0x05, 0x01] = .err .mismatch := by decide
+
+/-! ## 2. no panic, no overflow, no out-of-range access, no unbounded loop -/
+
+/-- checked arithmetic never panics: the element length is a value or an error for every input -/
+theorem elemLen_total (bs : Bytes) : NP (elemLen bs) := elemLen_np bs
+
+/-- every public accessor of `TLVElement` (model) returns a value or an error, never a panic and
+never an exhausted loop, on every byte string -/
+theorem no_panic (bs : Bytes) (h : bs.length + 1 < USIZE) :
+    NP (control bs) ∧ NP (tagOf bs) ∧ NP (valueOf bs) ∧ NP (rawValue bs) ∧ NP (containerLen bs) ∧
+    NP (i8 bs) ∧ NP (u8 bs) ∧ NP (i16 bs) ∧ NP (u16 bs) ∧ NP (i32 bs) ∧ NP (u32 bs) ∧ NP (i64 bs) ∧ NP (u64 bs) ∧
+    NP (f32 bs) ∧ NP (f64 bs) ∧ NP (strOf bs) ∧ NP (utf8Of bs) ∧ NP (octetsOf bs) ∧ NP (boolOf bs) ∧
+    NP (nullOf bs) ∧ NP (isContainerOf bs) ∧ NP (structOf bs) ∧ NP (arrayOf bs) ∧ NP (listOf bs) ∧
+    NP (containerOf bs) ∧ NP (confirmAnon bs) ∧ NP (ctxOf bs) ∧ NP (tryCtx bs) ∧
+    NP (reencode bs) ∧ NP (reencodeIter bs) :=
+  ⟨control_np bs, tagOf_np bs, valueOf_np bs h, rawValue_np bs h, containerLen_np bs h,
+   i8_np bs, u8_np bs, i16_np bs, u16_np bs, i32_np bs, u32_np bs, i64_np bs, u64_np bs,
+   f32_np bs, f64_np bs, strOf_np bs, utf8Of_np bs, octetsOf_np bs, boolOf_np bs,
+   nullOf_np bs, isContainerOf_np bs, structOf_np bs, arrayOf_np bs, listOf_np bs,
+   containerOf_np bs, confirmAnon_np bs, ctxOf_np bs, tryCtx_np bs,
+   reencode_np bs h, reencodeIter_np bs h⟩
+
+/-- the same for the `TLVSequence` API: element iteration step, skipping, lookup by context tag
+(`find_ctx`, `ctx`, `scan_ctx`) and `raw_value` -/
+theorem no_panic_seq (seq : Bytes) (ctx : Nat) (h : seq.length + 1 < USIZE) :
+    NP (current seq) ∧ NP (containerNext seq) ∧ NP (findCtx seq ctx) ∧ NP (seqCtx seq ctx) ∧
+    NP (scanCtx seq ctx) ∧ NP (rawValue seq) ∧ (∀ r ∈ elements seq, NP r) ∧ (∀ r ∈ tlvElements seq, NP r) :=
+  ⟨current_np seq, containerNext_np seq h, findCtx_np seq ctx h, seqCtx_np seq ctx h,
+   scanCtx_np seq ctx h, rawValue_np seq h, elements_item_np seq h, tlvElements_item_np seq h⟩
+
+/-- decoding a whole tree with the public accessors terminates with a tree or an error for every
+input and every depth cap -/
+theorem decode_total (d : Nat) (bs : Bytes) (h : bs.length + 1 < USIZE) : NP (decodeTree d bs) :=
+  decodeTree_np d bs h
+
+example : ∃ bs : Bytes, bs.length + 1 < USIZE ∧ (decodeTree 40 bs).isOk = true :=
+  ⟨[0x15, 0x24, 0x01, 0x05, 0x18], by decide, by decide⟩
+example : ∃ bs : Bytes, bs.length + 1 < USIZE ∧ (decodeTree 40 bs).isOk = false :=
+  ⟨[0x15, 0x13, 0xff, 0xff, 0xff, 0xff, 0xff, 0xff, 0xff, 0xff], by decide, by decide⟩
+
+/-! ## 3. iteration is finite and ends at the first error -/
+
+/-- `seq.iter()` consumed to the end is: at most `len` elements, then possibly **one** error, then
+nothing (the loop fuel `len + 1` of the model is never used up).  Every element is a suffix of the
+sequence and not longer than it. -/
+theorem iter_terminates (seq : Bytes) (h : seq.length + 1 < USIZE) :
+    ∃ (oks : List Bytes) (tail : List (Res Bytes)),
+      elements seq = oks.map .ok ++ tail ∧ (tail = [] ∨ ∃ e, tail = [.err e]) ∧
+      oks.length ≤ seq.length ∧ (∀ e ∈ oks, e <:+ seq) := by
+  obtain ⟨oks, tail, e1, e2, e3, _⟩ := elements_spec seq h
+  refine ⟨oks, tail, e1, e2, e3, ?_⟩
+  intro e he
+  apply elementsF_suffix (seq.length + 1) seq e
+  show Res.ok e ∈ elements seq
+  rw [e1]; exact List.mem_append_left _ (List.mem_map.mpr ⟨e, he, rfl⟩)
+
+/-- after the item that is an error the iterator is empty (`next()` on the emptied state is `None`) -/
+theorem iter_fused (seq : Bytes) (e : Err) (h : (iterNext seq).1 = some (.err e)) :
+    (iterNext (iterNext seq).2).1 = none := by
+  have h2 : (iterNext seq).2 = [] := by
+    unfold iterNext at h ⊢
+    cases hc : current seq with
+    | ok cur =>
+      rw [hc] at h
+      cases hn : containerNext seq with
+      | ok s' => rw [hn] at h; simp only at h; split at h <;> simp at h
+      | err e' => rfl
+      | panic p => rfl
+    | err e' => rfl
+    | panic p => rfl
+  rw [h2, iterNext_nil]
+
+example : elements [0x13, 0x02, 0, 0, 0, 0, 0, 0, 0, 0x14] = [.err .mismatch] := by decide
+example : elements [0x24, 0x01, 0x05, 0x24, 0x02, 0x06, 0x18] =
+    [.ok [0x24, 0x01, 0x05, 0x24, 0x02, 0x06, 0x18], .ok [0x24, 0x02, 0x06, 0x18]] := by decide
+
+/-- the same shape for `seq.tlv_iter()`: finitely many TLVs, at most one error, at the end -/
+theorem tlv_iter_terminates (seq : Bytes) (h : seq.length + 1 < USIZE) :
+    ∃ (oks : List (Tag × TVal)) (tail : List (Res (Tag × TVal))),
+      tlvElements seq = oks.map .ok ++ tail ∧ (tail = [] ∨ ∃ e, tail = [.err e]) ∧ oks.length ≤ seq.length :=
+  tlvElements_spec seq h
+
+/-! ## 4. reported lengths and returned slices lie within the input -/
+
+/-- the length reported for an element (`container_len`) never exceeds the input -/
+theorem len_within (bs : Bytes) (n : Nat) (h : containerLen bs = .ok n) : n ≤ bs.length := by
+  unfold containerLen at h
+  rcases Res.bind_eq_ok.mp h with ⟨c, _, h2⟩
+  rcases Res.bind_eq_ok.mp h2 with ⟨v, _, h3⟩
+  rcases Res.bind_eq_ok.mp h3 with ⟨len, _, h4⟩
+  split at h4
+  · simp at h4; omega
+  · simp at h4
+
+example : containerLen [0x15, 0x24, 0x01, 0x05, 0x18, 0xff] = .ok 5 := by decide
+
+/-- `raw_value()` is a contiguous sub-slice of the input -/
+theorem raw_value_within (bs v : Bytes) (h : rawValue bs = .ok v) : v <:+: bs := by
+  unfold rawValue at h
+  rcases Res.bind_eq_ok.mp h with ⟨c, hc, h2⟩
+  exact containerValue_infix h2 (control_ok_ne_nil hc)
+
+/-- `str()`, `utf8()`, `octets()` return contiguous sub-slices of the input -/
+theorem str_within (bs v : Bytes) (h : strOf bs = .ok v ∨ utf8Of bs = .ok v ∨ octetsOf bs = .ok v) : v <:+: bs := by
+  rcases h with h | h | h
+  · unfold strOf at h
+    rcases Res.bind_eq_ok.mp h with ⟨c, hc, h2⟩
+    split at h2
+    · simp at h2
+    · exact value_infix h2 (control_ok_ne_nil hc)
+  · unfold utf8Of at h
+    rcases Res.bind_eq_ok.mp h with ⟨c, hc, h2⟩
+    split at h2
+    · simp at h2
+    · rcases Res.bind_eq_ok.mp h2 with ⟨s, hs, h3⟩
+      split at h3
+      · simp at h3; subst h3; exact value_infix hs (control_ok_ne_nil hc)
+      · simp at h3
+  · unfold octetsOf at h
+    rcases Res.bind_eq_ok.mp h with ⟨c, hc, h2⟩
+    split at h2
+    · simp at h2
+    · exact value_infix h2 (control_ok_ne_nil hc)
+
+/-- the content of a container (`structure()/array()/list()/container()`) is a proper suffix -/
+theorem container_within (bs seq : Bytes) (h : containerOf bs = .ok seq) : seq <:+ bs ∧ seq.length < bs.length := by
+  unfold containerOf at h
+  rcases Res.bind_eq_ok.mp h with ⟨c, hc, h2⟩
+  split at h2
+  · exact ⟨nextEnter_suffix h2, nextEnter_lt (control_ok_ne_nil hc) h2⟩
+  · simp at h2
+
+example : containerOf [0x15, 0x24, 0x01, 0x05, 0x18] = .ok [0x24, 0x01, 0x05, 0x18] := by decide
+
+/-! ## 5. every written value tree decodes back to an equal tree -/
+
+/-- **Round trip.**  For every tree of TLV elements `v` that the writer API can be called with
+(`v.wf`: tag and integer values in the range of their Rust type, string lengths within their
+length-field width, UTF-8 strings valid), of any nesting depth `≤ d` and an encoding shorter than
+`usize::MAX`, the bytes the writer produces (`encode v` = `TLVWrite::tlv` / `start_*` /
+`end_container`), followed by arbitrary bytes, decode back — with the reader's public accessors
+`tag()`, `value()`, `container()?.iter()` — to exactly `v`. -/
+theorem decode_encode (v : Value) (d : Nat) (rest : Bytes) (hw : v.wf)
+    (hl : (encode v).length + 1 < USIZE) (hd : v.depth ≤ d) :
+    decodeTree d (encode v ++ rest) = .ok v :=
+  decodeTree_encode v d rest hw hl hd
+
+/-- … in particular for the exact output of the writer -/
+theorem decode_encode_exact (v : Value) (hw : v.wf) (hl : (encode v).length + 1 < USIZE) :
+    decodeTree v.depth (encode v) = .ok v := by
+  have := decode_encode v v.depth [] hw hl (Nat.le_refl _)
+  simpa using this
+
+-- the hypotheses are satisfiable (nested containers, every tag form, extremes of the widths)
+example :
+    let v : Value := .cont .anon .struct (.cons (.leaf (.ctx 255) (.sint .w8 (-9223372036854775808)))
+      (.cons (.cont (.fullQual64 65535 65535 4294967295) .list (.cons (.leaf .anon (.utf8 .w2 [0xc3, 0xa9])) .nil))
+      (.cons (.leaf (.implPrf32 7) (.str .w8 [1, 2, 3])) .nil)))
+    v.wf ∧ (encode v).length + 1 < USIZE ∧ decodeTree 3 (encode v) = .ok v := by
+  refine ⟨by simp [Value.wf, Values.wf, Tag.wf, Prim.wf, Width.bytes]; decide, by decide, by decide⟩
+
+/-- skipping (`container_next`, the iterator's advance) passes over exactly one written element -/
+theorem skip_encode (v : Value) (rest : Bytes) (hw : v.wf) (hd : v.depth + 1 < USIZE) :
+    containerNext (encode v ++ rest) = .ok rest :=
+  containerNext_encode v rest hw hd
+
+/-- iterating over the content of a written container yields its children, in order, and stops
+at the end marker -/
+theorem iter_encode (t : Tag) (k : Kind) (cs : Values) (rest : Bytes) (hw : cs.wf) (hd : cs.depth + 1 < USIZE) :
+    containerOf (encode (.cont t k cs) ++ rest) = .ok (encodes cs ++ endByte :: rest) ∧
+    elements (encodes cs ++ endByte :: rest) = (childSuffixes cs rest).map .ok :=
+  ⟨containerOf_cont t k cs rest, elements_encodes cs rest hw hd⟩
+
+/-- typed accessors: an integer written with **any** width is read back by the widest accessor
+(the reader's `u64 → u32 → u16 → u8` / `i64 → … → i8` chains), strings by `str`/`octets`/`utf8`,
+booleans and null by `bool`/`null` -/
+theorem typed_roundtrip (t : Tag) (rest : Bytes) :
+    (∀ w n, (Prim.uint w n).wf → u64 (encode (.leaf t (.uint w n)) ++ rest) = .ok n) ∧
+    (∀ w i, (Prim.sint w i).wf → i64 (encode (.leaf t (.sint w i)) ++ rest) = .ok i) ∧
+    (∀ w b, (Prim.str w b).wf → strOf (encode (.leaf t (.str w b)) ++ rest) = .ok b ∧
+                                 octetsOf (encode (.leaf t (.str w b)) ++ rest) = .ok b) ∧
+    (∀ w b, (Prim.utf8 w b).wf → utf8Of (encode (.leaf t (.utf8 w b)) ++ rest) = .ok b) ∧
+    (∀ b, boolOf (encode (.leaf t (.bool b)) ++ rest) = .ok b) ∧
+    nullOf (encode (.leaf t .null) ++ rest) = .ok () :=
+  ⟨fun w n h => u64_uint t w n rest h, fun w i h => i64_sint t w i rest h,
+   fun w b h => str_roundtrip t w b rest h, fun w b h => utf8_roundtrip t w b rest h,
+   fun b => (bool_null_roundtrip t b rest).1, (bool_null_roundtrip t true rest).2⟩
+
+/-- the writer methods that choose the width themselves (`u16/u32/u64`, `i16/i32/i64`, `str`,
+`utf8`) always produce a well-formed primitive, so the round trip applies to them: the value comes
+back through `u64()` / `i64()` whatever width was chosen -/
+theorem shortest_form_roundtrip (t : Tag) (rest : Bytes) :
+    (∀ n, n < 2 ^ 64 → u64 (encode (.leaf t (Prim.mkUint n)) ++ rest) = .ok n) ∧
+    (∀ i : Int, -(2 ^ 63 : Nat) ≤ i ∧ i < (2 ^ 63 : Nat) → i64 (encode (.leaf t (Prim.mkSint i)) ++ rest) = .ok i) ∧
+    (∀ b : Bytes, b.length < 2 ^ 64 → (Prim.mkStr b).wf) := by
+  refine ⟨fun n h => ?_, fun i h => ?_, fun b h => ?_⟩
+  · obtain ⟨w, hw⟩ := mkUint_eq n
+    have hwf := mkUint_wf n h
+    rw [hw] at hwf ⊢
+    exact u64_uint t w n rest hwf
+  · obtain ⟨w, hw⟩ := mkSint_eq i
+    have hwf := mkSint_wf i h
+    rw [hw] at hwf ⊢
+    exact i64_sint t w i rest hwf
+  · exact lenWidth_fits b.length h
+
+/-! ## 6. re-encoding a decoded element reproduces its bytes -/
+
+/-- **Re-encoding.**  Whenever `elem.to_tlv(&elem.tag()?, ..)` succeeds on an arbitrary non-empty
+input, its output is exactly the first `container_len()` bytes of that input — for well-formed and
+malformed inputs alike (no hypothesis that `bs` was produced by the writer). -/
+theorem reencode_bytes (bs out : Bytes) (hne : bs ≠ []) (hu : bs.length + 1 < USIZE)
+    (h : reencode bs = .ok out) : ∃ n, containerLen bs = .ok n ∧ n ≤ bs.length ∧ out = bs.take n := by
+  obtain ⟨n, h1, h2⟩ := reencode_take bs out hne hu h
+  exact ⟨n, h1, len_within bs n h1, h2⟩
+
+example : reencode [0x15, 0x24, 0x01, 0x05, 0x18, 0xff, 0xff] = .ok [0x15, 0x24, 0x01, 0x05, 0x18] := by decide
+
+/-- on the writer's own output the re-encoding succeeds and gives the written bytes back -/
+example : reencode (encode (.cont .anon .array (.cons (.leaf .anon (.str .w8 [7])) .nil))) =
+    .ok (encode (.cont .anon .array (.cons (.leaf .anon (.str .w8 [7])) .nil))) := by decide
+
+
+/-! ## 7. derived structures (schema-directed model of `#[derive(FromTLV, ToTLV)]`) -/
+section derived
+open TlvSchema
+
+def itemTag : Item → Nat
+  | .field f => f.tag
+  | .group tag _ _ => tag
+
+/-- well-formed schema: pairwise different context tags below 256, also inside nested structures -/
+def SchemaWf (s : Schema) : Prop :=
+  (s.items.map itemTag).Nodup ∧
+  ∀ i ∈ s.items, itemTag i < 256 ∧
+    match i with
+    | .field _ => True
+    | .group _ _ fs => (fs.map (·.tag)).Nodup ∧ ∀ f ∈ fs, f.tag < 256
+
+/-- the full statement for the schema language (including nested structures): **not proved** -/
+def struct_roundtrip_full : Prop :=
+  ∀ (s : Schema) (slots : List Slot) (v : Value), SchemaWf s → toValue s slots = some v →
+    decodeStruct s (encode v) = .ok slots
+
+/-- **proved part**: every schema without nested structures.  For fields of type
+`u8/u16/u32/u64/bool`, optional and/or nullable, with pairwise different tags `< 256`, in a struct,
+list or array container: the derived decoder applied to the bytes of the derived encoder returns
+the encoded field values (`Option::None` stays absent, `Nullable` null stays null, integers come
+back whatever width the writer chose). -/
+theorem struct_roundtrip_partial (k : Kind) (fs : List Field) (slots : List Slot) (v : Value)
+    (ht : ∀ f ∈ fs, f.tag < 256) (hnd : (fs.map (·.tag)).Nodup)
+    (hv : toValue ⟨k, fs.map .field⟩ slots = some v) :
+    decodeStruct ⟨k, fs.map .field⟩ (encode v) = .ok slots :=
+  struct_roundtrip_flat k fs slots v ht hnd hv
+
+/-- the seven real wire structures of stream `s` without nesting satisfy the hypotheses, so the
+theorem applies to the schemas the correspondence check ties to `AttrPath`, `CmdPath`, `EventPath`,
+`ClusterPath`, `EventFilter`, `TimedReq`, `Target` -/
+theorem real_flat_schemas :
+    ∀ name ∈ ["AttrPath", "CmdPath", "EventPath", "ClusterPath", "EventFilter", "TimedReq", "Target"],
+      ∃ (k : Kind) (fs : List Field), named name = some ⟨k, fs.map .field⟩ ∧ (∀ f ∈ fs, f.tag < 256) ∧
+        (fs.map (·.tag)).Nodup := by
+  intro name hn
+  simp only [List.mem_cons, List.mem_nil_iff, or_false] at hn
+  rcases hn with rfl | rfl | rfl | rfl | rfl | rfl | rfl
+  · exact ⟨.list, [⟨0, .bool, true, false⟩, ⟨1, .u64, true, false⟩, ⟨2, .u16, true, false⟩, ⟨3, .u32, true, false⟩,
+      ⟨4, .u32, true, false⟩, ⟨5, .u16, true, true⟩], rfl, by decide, by decide⟩
+  · exact ⟨.list, [⟨0, .u16, true, false⟩, ⟨1, .u32, true, false⟩, ⟨2, .u32, true, false⟩], rfl, by decide, by decide⟩
+  · exact ⟨.list, [⟨0, .u64, true, false⟩, ⟨1, .u16, true, false⟩, ⟨2, .u32, true, false⟩, ⟨3, .u32, true, false⟩,
+      ⟨4, .bool, true, false⟩], rfl, by decide, by decide⟩
+  · exact ⟨.list, [⟨0, .u64, true, false⟩, ⟨1, .u16, false, false⟩, ⟨2, .u32, false, false⟩], rfl, by decide, by decide⟩
+  · exact ⟨.struct, [⟨0, .u64, true, false⟩, ⟨1, .u64, true, false⟩], rfl, by decide, by decide⟩
+  · exact ⟨.struct, [⟨0, .u16, false, false⟩, ⟨Consts.imRevisionTag, .u8, true, false⟩], rfl, by decide, by decide⟩
+  · exact ⟨.struct, [⟨0, .u32, true, false⟩, ⟨1, .u16, true, false⟩, ⟨2, .u32, true, false⟩], rfl, by decide, by decide⟩
+
+-- the hypothesis `toValue … = some v` is satisfiable: an `AttrPath` with an absent, a null and present fields
+example : ∃ v, toValue ⟨.list, [⟨0, .bool, true, false⟩, ⟨1, .u64, true, false⟩, ⟨5, .u16, true, true⟩].map .field⟩
+    [.bool true, .absent, .null] = some v ∧
+    decodeStruct ⟨.list, [⟨0, .bool, true, false⟩, ⟨1, .u64, true, false⟩, ⟨5, .u16, true, true⟩].map .field⟩ (encode v)
+      = .ok [.bool true, .absent, .null] :=
+  ⟨_, rfl, by decide⟩
+
+end derived
+
+end C16
